@@ -146,16 +146,31 @@ Proof.
     + destruct (String.eqb (ve_name x) n); auto.
 Qed.
 
-Lemma iface_methods_put : forall v e getter fuel n args,
-  iface_avoids v fuel getter (ve_name e) n = true ->
-  iface_methods (view_put v e) fuel getter n args = iface_methods v fuel getter n args.
+(* an interface whose nesting is bounded and avoids t looks the same after t's file is loaded, at every fuel *)
+Lemma iface_methods_put : forall v e getter k n args k',
+  iface_ok v k getter (ve_name e) n = true ->
+  iface_methods (view_put v e) k' getter n args = iface_methods v k' getter n args.
 Proof.
-  intros v e getter fuel. induction fuel as [|fuel IH]; intros n args H; [reflexivity|].
-  cbn [iface_avoids] in H. apply andb_true_iff in H. destruct H as [Hne H]. apply negb_true_iff in Hne.
-  apply String.eqb_neq in Hne. cbn [iface_methods]. rewrite (find_ventry_put_other v e n Hne).
+  intros v e getter k. induction k as [|k IH]; intros n args k' H; [discriminate|].
+  cbn [iface_ok] in H. apply andb_true_iff in H. destruct H as [Hne H]. apply negb_true_iff in Hne.
+  apply String.eqb_neq in Hne. destruct k' as [|k']; [reflexivity|].
+  cbn [iface_methods]. rewrite (find_ventry_put_other v e n Hne).
   destruct (find_ventry v n) as [ve|]; [|reflexivity].
   destruct (iface_declared getter (ve_data ve)); [|reflexivity]. f_equal.
   rewrite forallb_forall in H. apply flat_map_ext_in. intros ia Hia. apply IH. apply H. exact Hia.
+Qed.
+
+(* ... and its complete method set does not depend on the fuel once the fuel covers the nesting *)
+Lemma iface_methods_stable : forall v getter t k n args k1 k2,
+  iface_ok v k getter t n = true -> k <= k1 -> k <= k2 ->
+  iface_methods v k1 getter n args = iface_methods v k2 getter n args.
+Proof.
+  intros v getter t k. induction k as [|k IH]; intros n args k1 k2 H L1 L2; [discriminate|].
+  cbn [iface_ok] in H. apply andb_true_iff in H. destruct H as [_ H].
+  destruct k1 as [|k1]; [lia|]. destruct k2 as [|k2]; [lia|].
+  cbn [iface_methods]. destruct (find_ventry v n) as [ve|]; [|reflexivity].
+  destruct (iface_declared getter (ve_data ve)); [|reflexivity]. f_equal.
+  rewrite forallb_forall in H. apply flat_map_ext_in. intros ia Hia. apply (IH (fst ia)); [apply H; exact Hia|lia|lia].
 Qed.
 
 Lemma own_methods_put : forall v e si,
@@ -186,6 +201,226 @@ Proof.
   apply andb_true_iff in H. destruct H as [H _]. apply String.eqb_eq. exact H.
 Qed.
 
+(* -------------------------------- unique accessor names => every accessor is visible on *T *)
+Definition emb_methods (pkg : pkg_spec) (v : view) (o : path * tfield) : list (path * gs_method) :=
+  if occ_emb o then match struct_of pkg (occ_ty o) with
+                    | Some si => map (fun m => (fst o, m)) (own_methods v si)
+                    | None => [] end
+  else [].
+
+Lemma flat_map_flat_map : forall A B C (f : B -> list C) (g : A -> list B) l,
+  flat_map f (flat_map g l) = flat_map (fun x => flat_map f (g x)) l.
+Proof. intros. induction l as [|x r IH]; simpl; auto. rewrite flat_map_app, IH. reflexivity. Qed.
+
+Lemma flat_map_map : forall A B C (f : B -> list C) (g : A -> B) l,
+  flat_map f (map g l) = flat_map (fun x => f (g x)) l.
+Proof. intros. induction l as [|x r IH]; simpl; auto. rewrite IH. reflexivity. Qed.
+
+Lemma methods_at_level : forall pkg v n si pre,
+  methods_at pkg v (S n) si pre = flat_map (emb_methods pkg v) (level pkg n si pre).
+Proof.
+  intros pkg v n. induction n as [|n IH]; intros si pre.
+  - cbn [methods_at level]. rewrite flat_map_map.
+    apply flat_map_ext. intros [[nm ft] emb]. unfold emb_methods, occ_emb, occ_ty. cbn [snd fst].
+    destruct emb; [|reflexivity]. destruct (struct_of pkg ft); reflexivity.
+  - change (methods_at pkg v (S (S n)) si pre) with
+      (flat_map (fun tf : tfield => let '(nm, ft, emb) := tf in
+         if emb then match struct_of pkg ft with
+                     | Some si' => methods_at pkg v (S n) si' (pre ++ [nm])
+                     | None => [] end else []) (struct_fields si)).
+    cbn [level]. rewrite flat_map_flat_map. apply flat_map_ext. intros [[nm ft] emb].
+    destruct emb; [|reflexivity]. destruct (struct_of pkg ft) as [si'|]; [|reflexivity]. apply IH.
+Qed.
+
+Fixpoint sum_list (l : list nat) : nat := match l with [] => 0 | x :: r => x + sum_list r end.
+
+Lemma filter_flat_map_length : forall A B (p : B -> bool) (f : A -> list B) l,
+  length (filter p (flat_map f l)) = sum_list (map (fun x => length (filter p (f x))) l).
+Proof.
+  intros. induction l as [|x r IH]; simpl; auto. rewrite filter_app, app_length, IH. reflexivity.
+Qed.
+
+Lemma sum_one : forall (f : nat -> nat) l j0,
+  NoDup l -> In j0 l -> sum_list (map f l) = 1 -> 1 <= f j0 ->
+  f j0 = 1 /\ forall j, In j l -> j <> j0 -> f j = 0.
+Proof.
+  intros f l j0. induction l as [|x r IH]; intros ND Hin S1 Hj; [destruct Hin|].
+  inversion ND; subst. simpl in S1. destruct Hin as [Hin|Hin].
+  - subst x. split; [lia|]. intros j [Hj'|Hj'] Hne; [congruence|].
+    assert (sum_list (map f r) = 0) by lia.
+    clear - H Hj'. induction r as [|y r IHr]; [destruct Hj'|]. simpl in H. destruct Hj' as [->|Hj']; [lia|apply IHr; auto; lia].
+  - assert (Hx : x <> j0) by (intros ->; contradiction).
+    assert (1 <= sum_list (map f r)).
+    { clear - Hin Hj. induction r as [|y r IHr]; [destruct Hin|]. simpl. destruct Hin as [->|Hin]; [lia|]. specialize (IHr Hin). lia. }
+    assert (f x = 0) by lia. assert (S' : sum_list (map f r) = 1) by lia.
+    destruct (IH H2 Hin S' Hj) as [I1 I2]. split; auto.
+    intros j [Hj'|Hj'] Hne; [subst; auto|apply I2; auto].
+Qed.
+
+(* all accessor methods of the closure, depth by depth *)
+Definition all_methods (pkg : pkg_spec) (v : view) (fuel : nat) (sd : sdecl) : list (path * gs_method) :=
+  flat_map (fun j => methods_at pkg v j (self_inst sd) []) (seq 0 (S fuel)).
+
+Lemma all_methods_names : forall pkg v fuel sd,
+  map (fun pm : path * gs_method => gm_name (snd pm)) (all_methods pkg v fuel sd) =
+  flat_map (fun ps : path * sinst => map gm_name (own_methods v (snd ps))) (struct_occs pkg fuel sd).
+Proof.
+  intros pkg v fuel sd. unfold all_methods, struct_occs.
+  change (seq 0 (S fuel)) with (0 :: seq 1 fuel). rewrite <- seq_shift. cbn [flat_map].
+  rewrite map_app. f_equal.
+  - cbn [methods_at]. rewrite map_map. reflexivity.
+  - rewrite flat_map_map, map_flat_map. unfold all_occ. rewrite flat_map_flat_map, flat_map_flat_map.
+    apply flat_map_ext. intros j.
+    rewrite methods_at_level, map_flat_map. apply flat_map_ext. intros o.
+    unfold emb_methods. destruct (occ_emb o); [|reflexivity].
+    destruct (struct_of pkg (occ_ty o)); [|reflexivity]. cbn [flat_map snd]. rewrite app_nil_r, map_map. reflexivity.
+Qed.
+
+Lemma count_str_app : forall x a b, count_str x (a ++ b) = count_str x a + count_str x b.
+Proof. intros. unfold count_str. rewrite filter_app, app_length. reflexivity. Qed.
+
+Lemma find_method_from_found : forall pkg v si m k d j0 pm,
+  d <= j0 -> j0 < d + k ->
+  (forall i, d <= i <= j0 -> candidates pkg i si m = []) ->
+  (forall i, d <= i < j0 -> method_candidates pkg v i si m = []) ->
+  method_candidates pkg v j0 si m = [pm] ->
+  find_method_from pkg v si m d k = Some pm.
+Proof.
+  intros pkg v si m k. induction k as [|k IH]; intros d j0 pm L1 L2 C M MC; [lia|].
+  cbn [find_method_from]. rewrite (C d) by lia.
+  destruct (Nat.eq_dec d j0) as [->|Hne].
+  - rewrite MC. reflexivity.
+  - rewrite (M d) by lia. apply (IH (S d) j0 pm); try lia; auto.
+    + intros i Hi. apply C. lia.
+    + intros i Hi. apply M. lia.
+Qed.
+
+Lemma level_emb_named : forall pkg n si pre o,
+  In o (level pkg n si pre) -> occ_emb o = true -> occ_name o = short_name (occ_ty o).
+Proof.
+  intros pkg n. induction n as [|n IH]; intros si pre o H E; simpl in H.
+  - apply in_map_iff in H. destruct H as [[[nm ft] emb] [Eo Htf]]. subst o.
+    unfold occ_emb, occ_name, occ_ty in *. cbn [snd fst] in *. subst emb.
+    apply (struct_fields_emb_named si). exact Htf.
+  - apply in_flat_map in H. destruct H as [[[nm ft] emb] [_ H]]. destruct emb; [|destruct H].
+    destruct (struct_of pkg ft); [|destruct H]. eapply IH; eauto.
+Qed.
+
+Theorem unique_names_visible : forall pkg v fuel sd,
+  depth_bounded pkg fuel sd = true ->
+  accessor_names_unique pkg v fuel sd = true -> accessors_visible pkg v fuel sd = true.
+Proof.
+  intros pkg v fuel sd GB U. unfold accessors_visible, accessor_names_unique in *.
+  rewrite forallb_forall in *. intros [p si] Hps. specialize (U _ Hps). rewrite forallb_forall in *.
+  intros m Hm. specialize (U m Hm). apply Nat.eqb_eq in U. cbn [snd] in *.
+  set (name := gm_name m) in *.
+  unfold member_names in U. rewrite count_str_app in U.
+  rewrite <- all_methods_names in U.
+  (* the depth of the declaring struct *)
+  assert (Depth : exists j0, j0 <= fuel /\ In (p, m) (methods_at pkg v j0 (self_inst sd) [])).
+  { unfold struct_occs in Hps. destruct Hps as [Hps|Hps].
+    - inversion Hps; subst p si. exists 0. split; [lia|]. cbn [methods_at]. apply in_map. exact Hm.
+    - apply in_flat_map in Hps. destruct Hps as [o [Ho Hps]].
+      destruct (occ_emb o) eqn:Eo; [|destruct Hps]. destruct (struct_of pkg (occ_ty o)) as [si'|] eqn:Es; [|destruct Hps].
+      destruct Hps as [Hps|[]]. inversion Hps; subst p si'.
+      unfold all_occ in Ho. apply in_flat_map in Ho. destruct Ho as [n [Hn Ho]]. apply in_seq in Hn.
+      exists (S n). split; [lia|]. rewrite methods_at_level. apply in_flat_map. exists o. split; auto.
+      unfold emb_methods. rewrite Eo, Es. apply in_map. exact Hm. }
+  destruct Depth as [j0 [Lj0 Hin0]].
+  set (pn := fun pm : path * gs_method => String.eqb name (gm_name (snd pm))).
+  assert (CM : count_str name (map (fun pm : path * gs_method => gm_name (snd pm)) (all_methods pkg v fuel sd)) =
+               sum_list (map (fun j => length (filter pn (methods_at pkg v j (self_inst sd) []))) (seq 0 (S fuel)))).
+  { unfold count_str, all_methods. rewrite <- filter_flat_map_length.
+    clear. induction (flat_map (fun j : nat => methods_at pkg v j (self_inst sd) []) (seq 0 (S fuel))) as [|x r IH]; simpl; auto.
+    unfold pn at 1. destruct (String.eqb name (gm_name (snd x))); simpl; rewrite IH; reflexivity. }
+  assert (Ge1 : 1 <= length (filter pn (methods_at pkg v j0 (self_inst sd) []))).
+  { assert (In (p, m) (filter pn (methods_at pkg v j0 (self_inst sd) []))).
+    { apply filter_In. split; auto. unfold pn, name. cbn [snd]. apply String.eqb_refl. }
+    destruct (filter pn (methods_at pkg v j0 (self_inst sd) [])); [destruct H|simpl; lia]. }
+  assert (In0 : In j0 (seq 0 (S fuel))) by (apply in_seq; lia).
+  assert (Ge1' : 1 <= sum_list (map (fun j => length (filter pn (methods_at pkg v j (self_inst sd) []))) (seq 0 (S fuel)))).
+  { clear - Ge1 In0. induction (seq 0 (S fuel)) as [|y r IHr]; [destruct In0|]. simpl. destruct In0 as [->|In0]; [lia|].
+    specialize (IHr In0). lia. }
+  rewrite CM in U.
+  assert (F0 : count_str name (map occ_name (all_occ pkg fuel (self_inst sd))) = 0) by lia.
+  assert (S1 : sum_list (map (fun j => length (filter pn (methods_at pkg v j (self_inst sd) []))) (seq 0 (S fuel))) = 1) by lia.
+  destruct (sum_one (fun j => length (filter pn (methods_at pkg v j (self_inst sd) []))) (seq 0 (S fuel)) j0
+                    (seq_NoDup (S fuel) 0) In0 S1 Ge1) as [One Zero].
+  (* no field of the closure has the accessor's name *)
+  assert (NoField : forall i, candidates pkg i (self_inst sd) name = []).
+  { intros i. unfold candidates. apply filter_none. intros c Hc.
+    destruct (Nat.lt_ge_cases i fuel) as [Hlt|Hge].
+    - apply not_true_is_false. intros T.
+      assert (In (occ_name c) (filter (String.eqb name) (map occ_name (all_occ pkg fuel (self_inst sd))))).
+      { apply filter_In. split; [apply in_map; eapply in_all_occ; eauto|].
+        unfold occ_name. rewrite String.eqb_sym. exact T. }
+      unfold count_str in F0. destruct (filter (String.eqb name) (map occ_name (all_occ pkg fuel (self_inst sd)))); [destruct H|discriminate].
+    - exfalso. pose proof (depth_lt_fuel _ _ _ _ _ GB Hc). lia. }
+  (* the candidates at each depth *)
+  assert (MCeq : forall j, method_candidates pkg v j (self_inst sd) name = filter pn (methods_at pkg v j (self_inst sd) [])).
+  { intros j. unfold method_candidates. apply filter_ext. intros pm. unfold pn. apply String.eqb_sym. }
+  assert (MC0 : method_candidates pkg v j0 (self_inst sd) name = [(p, m)]).
+  { rewrite MCeq.
+    assert (In (p, m) (filter pn (methods_at pkg v j0 (self_inst sd) []))).
+    { apply filter_In. split; auto. unfold pn, name. cbn [snd]. apply String.eqb_refl. }
+    destruct (filter pn (methods_at pkg v j0 (self_inst sd) [])) as [|x [|y r]]; simpl in One; try lia.
+    destruct H as [H|[]]. subst x. reflexivity. }
+  unfold find_method.
+  rewrite (find_method_from_found pkg v (self_inst sd) name (S fuel) 0 j0 (p, m)); try lia; auto.
+  - apply sig_eqb_refl.
+  - intros i Hi. rewrite MCeq.
+    assert (length (filter pn (methods_at pkg v i (self_inst sd) [])) = 0).
+    { apply Zero; [apply in_seq; lia|lia]. }
+    destruct (filter pn (methods_at pkg v i (self_inst sd) [])); [reflexivity|discriminate].
+Qed.
+
+(* the guards depend on the view only through the accessor methods it declares *)
+Lemma methods_at_ext : forall pkg v1 v2, (forall si, own_methods v1 si = own_methods v2 si) ->
+  forall n si pre, methods_at pkg v1 n si pre = methods_at pkg v2 n si pre.
+Proof.
+  intros pkg v1 v2 H n. induction n as [|n IH]; intros si pre; cbn [methods_at].
+  - rewrite H. reflexivity.
+  - apply flat_map_ext. intros [[nm ft] emb]. destruct emb; [|reflexivity].
+    destruct (struct_of pkg ft); [|reflexivity]. apply IH.
+Qed.
+
+Lemma find_method_ext : forall pkg v1 v2, (forall si, own_methods v1 si = own_methods v2 si) ->
+  forall fuel si m, find_method pkg v1 fuel si m = find_method pkg v2 fuel si m.
+Proof.
+  intros pkg v1 v2 H fuel si m. unfold find_method. generalize 0.
+  induction fuel as [|fuel IH]; intros d; cbn [find_method_from]; [reflexivity|].
+  unfold method_candidates. rewrite (methods_at_ext pkg v1 v2 H). rewrite IH. reflexivity.
+Qed.
+
+Lemma forallb_ext' : forall A (f g : A -> bool) l, (forall x, f x = g x) -> forallb f l = forallb g l.
+Proof. intros A f g l H. induction l as [|x r IH]; simpl; auto. rewrite H, IH. reflexivity. Qed.
+
+Lemma accessors_visible_ext : forall pkg v1 v2 fuel sd, (forall si, own_methods v1 si = own_methods v2 si) ->
+  accessors_visible pkg v1 fuel sd = accessors_visible pkg v2 fuel sd.
+Proof.
+  intros pkg v1 v2 fuel sd H. unfold accessors_visible. apply forallb_ext'. intros ps.
+  rewrite H. apply forallb_ext'. intros m. rewrite (find_method_ext pkg v1 v2 H). reflexivity.
+Qed.
+
+(* the struct's generated file declares exactly the accessor table: as far as methods go, loading it is loading
+   the table *)
+Lemma own_methods_spec_entry : forall pkg v fl fuel sd fields d nd,
+  getset_of pkg v fl fuel sd = COk (fields, d, nd) -> c03_guard pkg fl fuel sd = true ->
+  forall si, own_methods (view_put v (ventry_of sd nd d)) si = own_methods (view_put v (spec_entry fl sd)) si.
+Proof.
+  intros pkg v fl fuel sd fields d nd H G [sd' args].
+  destruct (accessor_table _ _ _ _ _ _ _ _ H G) as [T1 T2].
+  unfold own_methods. destruct (String.eqb (sd_pkg sd') ""); [|reflexivity].
+  destruct (String.eqb (sd_name sd') (sd_name sd)) eqn:E.
+  - apply String.eqb_eq in E. rewrite E.
+    replace (sd_name sd) with (ve_name (ventry_of sd nd d)) at 1 by reflexivity. rewrite find_ventry_put.
+    replace (sd_name sd) with (ve_name (spec_entry fl sd)) by reflexivity. rewrite find_ventry_put.
+    cbn [ve_data ventry_of spec_entry gs_getters gs_setters]. rewrite T1, T2. reflexivity.
+  - apply String.eqb_neq in E.
+    rewrite (find_ventry_put_other v (ventry_of sd nd d)) by exact E.
+    rewrite (find_ventry_put_other v (spec_entry fl sd)) by exact E. reflexivity.
+Qed.
+
 (* ------------------------------------------------------------ the theorem *)
 Lemma in_struct_occs : forall pkg fuel sd o si,
   In o (all_occ pkg fuel (self_inst sd)) -> occ_emb o = true -> struct_of pkg (occ_ty o) = Some si ->
@@ -195,24 +430,30 @@ Proof.
   rewrite Hemb, Hs. left. reflexivity.
 Qed.
 
-Theorem pointer_receiver_satisfies : forall pkg v fl fuel sd fields d nd getter,
+Theorem pointer_receiver_satisfies : forall pkg v fl fuel sd fields d nd getter k,
   getset_of pkg v fl fuel sd = COk (fields, d, nd) ->
   c03_guard pkg fl fuel sd = true -> sd_pkg sd = ""%string ->
+  accessor_names_unique pkg (view_put v (spec_entry fl sd)) fuel sd = true ->
+  not_self_embedded pkg fuel sd = true -> view_ok pkg v fuel sd = true ->
+  S fuel <= k ->
   let v' := view_put v (ventry_of sd nd d) in
-  accessors_visible pkg v' fuel sd = true ->
-  not_self_embedded pkg fuel sd = true -> ifaces_avoid v fuel sd d = true ->
   implements pkg v' (S fuel) (self_inst sd)
-             (iface_methods v' (S fuel) getter (sd_name sd) (map TParam (ve_tparams (ventry_of sd nd d)))) = true.
+             (iface_methods v' k getter (sd_name sd) (map TParam (ve_tparams (ventry_of sd nd d)))) = true.
 Proof.
-  intros pkg v fl fuel sd fields d nd getter H G Hpkg v' VIS NSE AV.
-  pose proof (interface_method_set pkg v fl fuel sd fields d nd getter fuel H G) as IMS. cbn zeta in IMS.
+  intros pkg v fl fuel sd fields d nd getter k H G Hpkg UNI NSE VOK Lk v'.
+  destruct k as [|k]; [lia|].
+  pose proof (interface_method_set pkg v fl fuel sd fields d nd getter k H G) as IMS. cbn zeta in IMS.
   fold v' in IMS. rewrite IMS. clear IMS.
   destruct (c03_guard_parts _ _ _ _ G) as [G2 _].
   destruct (c02_guard_parts _ _ _ G2) as [GB [GW [GU [GN [_ [_ [GX _]]]]]]].
   destruct (accessor_table _ _ _ _ _ _ _ _ H G) as [T1 T2].
   destruct (embedded_interfaces _ _ _ _ _ _ _ _ H) as [AG AS].
+  (* visibility, from the uniqueness of the accessor names of the input *)
+  assert (VIS : accessors_visible pkg v' fuel sd = true).
+  { unfold v'. rewrite (accessors_visible_ext pkg _ (view_put v (spec_entry fl sd)) fuel sd
+                          (own_methods_spec_entry pkg v fl fuel sd fields d nd H G)).
+    apply unique_names_visible; auto. }
   unfold accessors_visible in VIS. rewrite forallb_forall in VIS.
-  (* every accessor of a struct of the closure is selected on *T *)
   assert (SEL : forall p si m, In (p, si) (struct_occs pkg fuel sd) -> In m (own_methods v' si) ->
                 exists pm, find_method pkg v' (S fuel) (self_inst sd) (gm_name m) = Some pm /\ sig_eqb m (snd pm) = true).
   { intros p si m Hps Hm. specialize (VIS _ Hps). rewrite forallb_forall in VIS. specialize (VIS m Hm).
@@ -222,19 +463,8 @@ Proof.
   - (* a method of an embedded interface *)
     apply in_flat_map in Hm. destruct Hm as [ia [Hia Hm]].
     assert (Adm : admitted pkg v fuel fields getter ia) by (destruct getter; [apply AG|apply AS]; exact Hia).
-    assert (Av : iface_avoids v fuel getter (sd_name sd) (fst ia) = true).
-    { unfold ifaces_avoid in AV. apply andb_true_iff in AV. destruct AV as [A1 A2].
-      rewrite forallb_forall in A1, A2. destruct getter; [apply A1|apply A2]; exact Hia. }
-    unfold v' in Hm. rewrite (iface_methods_put v (ventry_of sd nd d) getter fuel (fst ia) (snd ia) Av) in Hm.
     destruct Adm as [f [ve [si_e [Hf [Femb [Fname [Fargs [Fs [Ff [Flen Fimp]]]]]]]]]].
     rewrite (find_iface_name _ _ _ _ Ff) in Fimp.
-    unfold implements in Fimp. rewrite forallb_forall in Fimp. specialize (Fimp m Hm).
-    destruct (find_method pkg v fuel si_e (gm_name m)) as [pm'|] eqn:FM; [|discriminate].
-    (* pm' is an accessor of a struct of E's closure *)
-    destruct (find_method_from_in _ _ _ _ _ _ _ FM) as [j [Hj [MC _]]].
-    assert (Hpm : In pm' (methods_at pkg v j si_e [])).
-    { assert (In pm' (method_candidates pkg v j si_e (gm_name m))) by (rewrite MC; left; reflexivity).
-      unfold method_candidates in H0. apply filter_In in H0. tauto. }
     (* the embedded entry f is an occurrence of T's closure *)
     unfold getset_of in H. destruct (flatten pkg fl fuel sd) as [[fs hn]| |] eqn:EF; try discriminate.
     inversion H; subst fields. clear H.
@@ -245,16 +475,68 @@ Proof.
     fold (top_tfields sd) in Hoe. rewrite <- struct_fields_self, <- level_is_fields in Hoe.
     assert (Ote' : struct_of pkg (occ_ty oe) = Some si_e).
     { rewrite Ote. rewrite Ef, mark_with_ty in Fs. exact Fs. }
+    assert (Hocc_e : In oe (all_occ pkg fuel (self_inst sd))).
+    { eapply in_all_occ; [|exact Hoe]. eapply depth_lt_fuel; eauto. }
+    (* its interface is bounded and avoids T: it looks the same at every fuel, before and after T's file is loaded *)
+    assert (Ename : occ_name oe = fst ia).
+    { rewrite (level_emb_named _ _ _ _ _ Hoe Oee), Ote. rewrite <- Fname, Ef, mark_with_name.
+      (* an embedded entry is named by its type *)
+      clear - Hraw Hf0 Femb0.
+      assert (Gen : forall fds raw0, raw_top pkg fl fuel fds = COk raw0 -> In f0 raw0 -> f_name f0 = short_name (f_ty f0)).
+      { induction fds as [|fd fds IH]; intros raw0 H0 Hin; simpl in H0.
+        - inversion H0; subst. destruct Hin.
+        - destruct (raw_decl pkg fl fuel fd) as [a| |] eqn:Ea; try discriminate.
+          destruct (raw_top pkg fl fuel fds) as [b| |] eqn:Eb; try discriminate.
+          inversion H0; subst raw0. apply in_app_or in Hin. destruct Hin as [Hin|Hin]; [|eapply IH; eauto].
+          unfold raw_decl in Ea. destruct (fd_names fd) as [|x names] eqn:EN.
+          + destruct (raw_type pkg fuel 0 [] (fd_ty fd) (parse_new_comment (fd_doc fd))) as [l|] eqn:Er; [|discriminate].
+            inversion Ea; subst a.
+            assert (Rt : forall fu depth pre t is_new l0, raw_type pkg fu depth pre t is_new = Some l0 ->
+                         forall e, In e l0 -> f_embedded e = true -> f_name e = short_name (f_ty e)).
+            { clear. intros fu. induction fu as [|fu IHf]; intros depth pre t is_new l0 H0; rewrite raw_type_unfold in H0.
+              - destruct (struct_of pkg t); inversion H0; subst. intros e [].
+              - destruct (struct_of pkg t) as [si|]; [|inversion H0; subst; intros e []].
+                set (e0 := embedded_entry t depth pre) in *.
+                assert (Gx : forall fs l', raw_fields pkg fu (S depth) (f_path e0) is_new fs = Some l' ->
+                             forall e, In e l' -> f_embedded e = true -> f_name e = short_name (f_ty e)).
+                { induction fs as [|[[n ft] emb] fs IHfs]; intros l' H'.
+                  - inversion H'; subst. intros e [].
+                  - rewrite raw_fields_cons in H'. destruct emb.
+                    + destruct (raw_type pkg fu (S depth) (f_path e0) ft is_new) as [a|] eqn:Ea; [|discriminate].
+                      destruct (raw_fields pkg fu (S depth) (f_path e0) is_new fs) as [b|] eqn:Eb; [|discriminate].
+                      inversion H'; subst. intros e He. apply in_app_or in He. destruct He as [He|He].
+                      * eapply IHf; eauto.
+                      * eapply IHfs; eauto.
+                    + destruct (raw_fields pkg fu (S depth) (f_path e0) is_new fs) as [b|] eqn:Eb; [|discriminate].
+                      inversion H'; subst. intros e [He|He]; [subst; discriminate|eapply IHfs; eauto]. }
+                destruct (raw_fields pkg fu (S depth) (f_path e0) is_new (struct_fields si)) as [l'|] eqn:E; [|discriminate].
+                inversion H0; subst. intros e [He|He] Hemb.
+                + subst e. unfold e0. rewrite embedded_entry_name, embedded_entry_ty. reflexivity.
+                + eapply Gx; eauto. }
+            eapply Rt; eauto.
+          + destruct (raw_names_facts _ _ _ _ _ _ Ea Hin) as [_ [_ [Hne _]]]. congruence. }
+      symmetry. eapply Gen; eauto. }
+    assert (IOK : iface_ok v fuel getter (sd_name sd) (fst ia) = true).
+    { unfold view_ok in VOK. rewrite forallb_forall in VOK. specialize (VOK oe Hocc_e).
+      unfold occ_is_node in VOK. rewrite Oee, Ote' in VOK. cbn [is_some negb orb andb] in VOK.
+      apply andb_true_iff in VOK. destruct VOK as [V1 V2]. rewrite Ename in V1, V2. destruct getter; assumption. }
+    unfold v' in Hm. rewrite (iface_methods_put v (ventry_of sd nd d) getter fuel (fst ia) (snd ia) k IOK) in Hm.
+    rewrite (iface_methods_stable v getter (sd_name sd) fuel (fst ia) (snd ia) k fuel IOK) in Hm by lia.
+    unfold implements in Fimp. rewrite forallb_forall in Fimp. specialize (Fimp m Hm).
+    destruct (find_method pkg v fuel si_e (gm_name m)) as [pm'|] eqn:FM; [|discriminate].
+    (* pm' is an accessor of a struct of E's closure *)
+    destruct (find_method_from_in _ _ _ _ _ _ _ FM) as [j [Hj [MC _]]].
+    assert (Hpm : In pm' (methods_at pkg v j si_e [])).
+    { assert (In pm' (method_candidates pkg v j si_e (gm_name m))) by (rewrite MC; left; reflexivity).
+      unfold method_candidates in H. apply filter_In in H. tauto. }
     assert (Target : exists p si, In (p, si) (struct_occs pkg fuel sd) /\ In (snd pm') (own_methods v si) /\
                                   (String.eqb (sd_pkg (fst si)) "" && String.eqb (sd_name (fst si)) (sd_name sd) = false)%bool).
     { unfold not_self_embedded in NSE. rewrite forallb_forall in NSE.
-      destruct (methods_at_occ _ _ _ _ _ _ Hpm) as [[Ej [Ep Hown]]|[k [o' [si' [Ej [Ho' [Hemb' [Hs' [Ep Hown]]]]]]]]].
-      - assert (Hocc : In oe (all_occ pkg fuel (self_inst sd))).
-        { eapply in_all_occ; [|exact Hoe]. eapply depth_lt_fuel; eauto. }
-        exists (fst oe), si_e. split; [eapply in_struct_occs; eauto|]. split; auto.
-        specialize (NSE oe Hocc). rewrite Oee, Ote' in NSE. destruct si_e as [sde ae]. cbn [fst].
+      destruct (methods_at_occ _ _ _ _ _ _ Hpm) as [[Ej [Ep Hown]]|[k0 [o' [si' [Ej [Ho' [Hemb' [Hs' [Ep Hown]]]]]]]]].
+      - exists (fst oe), si_e. split; [eapply in_struct_occs; eauto|]. split; auto.
+        specialize (NSE oe Hocc_e). rewrite Oee, Ote' in NSE. destruct si_e as [sde ae]. cbn [fst].
         apply negb_true_iff in NSE. exact NSE.
-      - pose proof (level_compose pkg k si_e o' (f_depth f0) (self_inst sd) [] oe Hoe Oee Ote' Ho') as Hc.
+      - pose proof (level_compose pkg k0 si_e o' (f_depth f0) (self_inst sd) [] oe Hoe Oee Ote' Ho') as Hc.
         assert (Hocc : In (fst oe ++ fst o', snd o') (all_occ pkg fuel (self_inst sd))).
         { eapply in_all_occ; [|exact Hc]. eapply depth_lt_fuel; eauto. }
         exists (fst oe ++ fst o'), si'. split.
@@ -275,4 +557,26 @@ Proof.
       apply in_or_app. destruct getter; [left|right]; apply in_map_iff; exists a; split; auto; apply acc_method_self. }
     destruct (SEL [] (self_inst sd) _ (or_introl eq_refl) Hown) as [pm [Fpm Spm]].
     rewrite Fpm. exact Spm.
+Qed.
+
+(* the complete method set of the emitted interface does not depend on the fuel *)
+Theorem interface_method_set_stable : forall pkg v fl fuel sd fields d nd (getter : bool) k1 k2,
+  getset_of pkg v fl fuel sd = COk (fields, d, nd) ->
+  c03_guard pkg fl fuel sd = true ->
+  (forall ia : ident * list ty, In ia (if getter then gs_get_ifaces d else gs_set_ifaces d) ->
+     iface_ok v fuel getter (sd_name sd) (fst ia) = true) ->
+  S fuel <= k1 -> S fuel <= k2 ->
+  let v' := view_put v (ventry_of sd nd d) in
+  let tps := ve_tparams (ventry_of sd nd d) in
+  iface_methods v' k1 getter (sd_name sd) (map TParam tps) = iface_methods v' k2 getter (sd_name sd) (map TParam tps).
+Proof.
+  intros pkg v fl fuel sd fields d nd getter k1 k2 H G OK L1 L2 v' tps.
+  destruct k1 as [|k1]; [lia|]. destruct k2 as [|k2]; [lia|].
+  pose proof (interface_method_set pkg v fl fuel sd fields d nd getter k1 H G) as I1.
+  pose proof (interface_method_set pkg v fl fuel sd fields d nd getter k2 H G) as I2.
+  cbn zeta in I1, I2. fold v' tps in I1, I2. rewrite I1, I2.
+  destruct (iface_declared getter d); [|reflexivity]. f_equal.
+  apply flat_map_ext_in. intros ia Hia. specialize (OK ia Hia). unfold v'.
+  rewrite !(iface_methods_put v (ventry_of sd nd d) getter fuel (fst ia) (snd ia) _ OK).
+  apply (iface_methods_stable v getter (sd_name sd) fuel); auto; lia.
 Qed.
